@@ -48,8 +48,8 @@ type decPayload struct {
 // "never panics" includes "returns": both wrappers run the call on a goroutine
 // of its own and report a call that has not returned after hangLimit (values
 // and texts are small: a call takes microseconds, milliseconds under load) the
-// way they report a panic. The goroutine of a call that really spins is lost;
-// the process ends with the failure.
+// as a failure that ends the shard at once (ev.FailNow: the goroutine of a call
+// that really spins cannot be stopped and would starve the shrinker).
 const hangLimit = 90 * time.Second
 
 type hung string
@@ -75,7 +75,10 @@ func safeEncode(v tengo.Object) (b []byte, err error, pan interface{}) {
 	case r := <-ch:
 		return r.b, r.err, r.pan
 	case <-time.After(hangLimit):
-		return nil, nil, hung(fmt.Sprintf("json.Encode did not return within %v", hangLimit))
+		// the spinning goroutine cannot be stopped and would starve every
+		// further case (and the shrinker): record the value and end the shard
+		ev.FailNow("TestEncodeTotal", encPayload{Value: tv.FromObject(v)}, fmt.Sprintf("Encode(%s) did not return within %v", tv.Describe(v), hangLimit))
+		return nil, nil, hung("unreachable")
 	}
 }
 
@@ -100,7 +103,8 @@ func safeDecode(b []byte) (o tengo.Object, err error, pan interface{}) {
 	case r := <-ch:
 		return r.o, r.err, r.pan
 	case <-time.After(hangLimit):
-		return nil, nil, hung(fmt.Sprintf("json.Decode did not return within %v", hangLimit))
+		ev.FailNow("TestDecodeBytes", decPayload{Hex: fmt.Sprintf("%x", b), Text: strconv.QuoteToASCII(string(b))}, fmt.Sprintf("Decode(%q) did not return within %v", b, hangLimit))
+		return nil, nil, hung("unreachable")
 	}
 }
 
